@@ -60,8 +60,20 @@ package logic
 //   4. resources.go fillApplicationCallAccess no longer shares (sender, app) locals     -> unavailable-inside-MUST:local
 //   5. resources.go allowsHolding: created asset usable with ANY account                -> access-outside-MAY:holding
 //
-// Not covered: inner-transaction submission (`itxn_submit` cross-product checks of allows*),
-// inner app calls, ClearState programs, UnnamedResources (simulation), value correctness of reads.
+// Layer G (v13 foreign box opcodes): app_box_create/put/get/len/del/replace/resize (+ box_* when
+//   the owner is the running app) x running app pre-existing or created in this group (E is the
+//   creating call) x box owner self / pre-existing sibling p / created-in-group c / q x box
+//   references none / empty / two empty / named / fresh-name, with one creator and all permission
+//   flags set. MAY = named by a member, or owner created in group and an empty reference present.
+// Layer H (itxn_submit): caller v9/current builds an inner appl (callee program v6,7,8,9,current;
+//   every subset of Accounts{A} x Assets{x} x Applications{p}), axfer or afrz from resources it
+//   obtained from its own arrays and/or other members (5 contexts) and submits it; the inner
+//   transaction must be refused if it would make a holding/local accessible that no member shared
+//   (for callees < v9: sender, Accounts, callee app account, and from callee v7 the foreign apps'
+//   accounts, each x Assets and x {callee} u Applications).
+//
+// Not covered: inner calls deeper than one level, inner app creation, ClearState programs,
+// UnnamedResources (simulation), value correctness of reads.
 //
 // Unexported identifiers used: test Ledger (NewLedger, NewApp, NewAsset, NewHolding, NewLocals,
 // NewBox, SetForeignBoxReads), makeTestProto, EvalParams.RecordAD, panicError.
@@ -1262,6 +1274,493 @@ func c35AccessConfigs() []transactions.SignedTxn {
 	return out
 }
 
+// ---------------------------------------------------------------------------------------------
+// layer G: foreign box opcodes (v13+), running app / box owner created-in-group or pre-existing
+// ---------------------------------------------------------------------------------------------
+
+type c35BoxCase struct {
+	name      string
+	runCreate bool // E is the creating call of c (ApplicationID 0, evaluated as app c); else E calls self
+	ctxCreate bool // a preceding member creates c
+	apps      []basics.AppIndex
+	boxes     []transactions.BoxRef
+}
+
+func c35FBoxOps(owner basics.AppIndex, name string, own bool) map[string]string {
+	id := fmt.Sprintf("int %d\n", owner)
+	nm := fmt.Sprintf("byte \"%s\"\n", name)
+	m := map[string]string{
+		"app_box_create":  id + nm + "int 2\napp_box_create\npop\nint 1",
+		"app_box_put":     id + nm + "byte \"v1\"\napp_box_put\nint 1",
+		"app_box_get":     id + nm + "app_box_get\npop\npop\nint 1",
+		"app_box_len":     id + nm + "app_box_len\npop\npop\nint 1",
+		"app_box_del":     id + nm + "app_box_del\npop\nint 1",
+		"app_box_replace": id + nm + "int 0\nbyte \"w\"\napp_box_replace\nint 1",
+		"app_box_resize":  id + nm + "int 2\napp_box_resize\nint 1",
+	}
+	if own {
+		m["box_create"] = nm + "int 2\nbox_create\npop\nint 1"
+		m["box_get"] = nm + "box_get\npop\npop\nint 1"
+		m["box_put"] = nm + "byte \"v1\"\nbox_put\nint 1"
+		m["box_del"] = nm + "box_del\npop\nint 1"
+	}
+	return m
+}
+
+// c35LayerG: reference = a box (owner,name) may be touched iff some member's box reference names
+// it, or the OWNER app is created in this group and the group carries an empty box reference
+// (resources.go `boxes`/`unnamedAccess` comments, box.go availableAppBox comment). Permissions
+// are taken out of the picture: all apps share one creator and have ForeignBoxReads and
+// FamilyBoxAccess set.
+func (c *c35Runner) layerG() {
+	refTo := func(i uint64, n string) transactions.BoxRef { return transactions.BoxRef{Index: i, Name: []byte(n)} }
+	var cases []c35BoxCase
+	boxSets := func(first basics.AppIndex) map[string][]transactions.BoxRef {
+		return map[string][]transactions.BoxRef{
+			"none": nil, "empty": {{}}, "empty2": {{}, {}},
+			"own-named": {refTo(0, c35BoxNames[first])}, "own-fresh": {refTo(0, "nw")},
+			"p-named": {refTo(1, "bp")}, "p-fresh": {refTo(1, "nw")}, "p-fresh+empty": {refTo(1, "nw"), {}},
+			"c-named": {refTo(2, "bc")}, "c-fresh": {refTo(2, "nw")},
+		}
+	}
+	for _, rc := range []bool{false, true} {
+		for _, cc := range []bool{false, true} {
+			if rc && cc {
+				continue
+			}
+			first := c35Self
+			if rc {
+				first = c35C
+			}
+			sets := boxSets(first)
+			var names []string
+			for k := range sets {
+				names = append(names, k)
+			}
+			sort.Strings(names)
+			for _, bn := range names {
+				if rc && strings.HasPrefix(bn, "c-") {
+					continue // index 2 names c itself only through ForeignApps; the creating call uses index 0
+				}
+				cases = append(cases, c35BoxCase{fmt.Sprintf("runCreated=%v ctxCreates=%v boxes=%s", rc, cc, bn), rc, cc, []basics.AppIndex{c35P, c35C}, sets[bn]})
+			}
+		}
+	}
+	type target struct {
+		owner basics.AppIndex
+		name  string
+	}
+	targets := []target{{c35Self, "bs"}, {c35Self, "nw"}, {c35P, "bp"}, {c35P, "nw"}, {c35C, "bc"}, {c35C, "nw"}, {c35Q, "bq"}}
+	var nOut, nIn, nEval, nSucc atomic.Int64
+	c.r.ParallelFor(len(cases), func(i int) {
+		bc := cases[i]
+		for _, v := range []uint64{foreignBoxVersion, LogicVersion} {
+			if v < foreignBoxVersion {
+				continue
+			}
+			for _, tg := range targets {
+				running := c35Self
+				if bc.runCreate {
+					running = c35C
+				}
+				if bc.runCreate && tg.owner == c35Self {
+					continue
+				}
+				ops := c35FBoxOps(tg.owner, tg.name, tg.owner == running)
+				var opNames []string
+				for k := range ops {
+					opNames = append(opNames, k)
+				}
+				sort.Strings(opNames)
+				for _, opn := range opNames {
+					prog := c.program(v, ops[opn])
+					if prog == nil {
+						continue
+					}
+					// group
+					var txns []transactions.SignedTxn
+					if bc.ctxCreate {
+						txns = append(txns, c35Appl(c35S, 0))
+					}
+					e := c35Appl(c35S, c35Self)
+					if bc.runCreate {
+						e.Txn.ApplicationID = 0
+					}
+					e.Txn.ForeignApps = bc.apps
+					e.Txn.Boxes = bc.boxes
+					txns = append(txns, e)
+					// reference
+					named, empties := false, 0
+					created := map[basics.AppIndex]bool{}
+					if bc.ctxCreate || bc.runCreate {
+						created[c35C] = true
+					}
+					for _, br := range bc.boxes {
+						if br.Index == 0 && br.Name == nil {
+							empties++
+							continue
+						}
+						app := running
+						if br.Index > 0 {
+							app = bc.apps[br.Index-1]
+						}
+						if app == tg.owner && string(br.Name) == tg.name {
+							named = true
+						}
+					}
+					must := named
+					may := named || (created[tg.owner] && empties > 0)
+					// run
+					ledger := c35Ledger()
+					for _, ap := range []basics.AppIndex{c35Self, c35P, c35Q, c35C} {
+						_ = ledger.SetFamilyBoxAccess(ap, true)
+					}
+					ep := NewAppEvalParams(transactions.WrapSignedTxnsWithAD(txns), c.proto, &transactions.SpecialAddresses{})
+					ep.Ledger = ledger
+					ep.SigLedger = ledger
+					if bc.ctxCreate {
+						if pass, _, err := EvalContract(c.intOne[v], 0, c35C, ep); err != nil || !pass {
+							c.r.Report("C35:harness-create", fmt.Sprintf("creating app call failed: %v", err), nil)
+							return
+						}
+					}
+					pass, _, err := EvalContract(prog, len(txns)-1, running, ep)
+					nEval.Add(1)
+					what := fmt.Sprintf("v%d foreign-box layer, %s: `%s` on box (%d,%q), running app %d", v, bc.name, opn, tg.owner, tg.name, running)
+					replay := map[string]any{"layer": "G", "case": bc.name, "version": v, "op": opn, "owner": tg.owner, "box": tg.name, "must": must, "may": may}
+					if _, isPanic := err.(panicError); isPanic {
+						c.r.Report("C35:panic", what+fmt.Sprintf(": EvalContract panicked: %v", err), replay)
+						continue
+					}
+					outcome := "other-error"
+					switch {
+					case err == nil && pass:
+						outcome = "success"
+						nSucc.Add(1)
+						if !may {
+							nOut.Add(1)
+							key := "C35:access-outside-MAY:foreign-box:" + opn
+							c.note(key, what)
+							c.r.Report(key, what+" SUCCEEDED although no member names the box and its owner was not created in this group", replay)
+						}
+					case err != nil && c35IsUnavailable(err.Error()):
+						outcome = "unavailable"
+						if must {
+							nIn.Add(1)
+							key := "C35:unavailable-inside-MUST:foreign-box:" + opn
+							c.note(key, what+" err="+err.Error())
+							c.r.Report(key, what+fmt.Sprintf(" failed although a box reference names it: %v", err), replay)
+						}
+					default:
+						if err != nil {
+							c.mu.Lock()
+							c.others["G "+opn+": "+regexp.MustCompile(`[0-9A-Z]{52,58}|\d+`).ReplaceAllString(strings.SplitN(err.Error(), ". Details", 2)[0], "#")]++
+							c.mu.Unlock()
+						}
+					}
+					c.r.Class(fmt.Sprintf("G|%s|runCreated=%v|ownerCreated=%v|must=%v|may=%v|%s", opn, bc.runCreate, created[tg.owner], must, may, outcome))
+				}
+			}
+		}
+	})
+	c.r.EvalN(int(nEval.Load()))
+	c.r.Set("G_foreign_box_accesses", nEval.Load())
+	c.r.Set("G_success", nSucc.Load())
+}
+
+// ---------------------------------------------------------------------------------------------
+// layer H: itxn_submit — an inner transaction must not make an unshared cross product accessible
+// ---------------------------------------------------------------------------------------------
+
+func c35AcctName(a basics.Address) string {
+	for _, ap := range []basics.AppIndex{c35Self, c35P, c35Q, c35C} {
+		if a == ap.Address() {
+			return fmt.Sprintf("account of app %d", ap)
+		}
+	}
+	for _, cv := range c35CalleeVersions {
+		if a == c35Callee(cv).Address() {
+			return fmt.Sprintf("account of callee app %d", c35Callee(cv))
+		}
+	}
+	return strings.TrimRight(string(a[:8]), "-")
+}
+
+func c35Callee(v uint64) basics.AppIndex { return basics.AppIndex(3000 + v) }
+
+var c35CalleeVersions = []uint64{6, 7, 8, 9, LogicVersion}
+
+// c35LayerH: the caller E (v9 / current) builds an inner appl (callee program version 6,7,8,9,
+// current; every subset of Accounts{A} x Assets{x} x Applications{p}), axfer (asset x|y to
+// S|A|B|p's account) or afrz (asset x|y, account S|A|B|p's account) and submits it.
+// Reference (resources.go allows* comments: "find all of the cross product resources this
+// attempted call will have access to, and check that they are already available"; a pre-v9
+// callee trusts its own arrays: sender, Accounts, its own app account and - from callee v7, the
+// appAddressAvailableVersion - the accounts of its foreign apps, each with every foreign asset
+// and with the called app and every foreign app): success requires every such holding / local
+// to be in MAY for the caller; an "... would be accessible" failure is wrong when all are in MUST.
+func (c *c35Runner) layerH() {
+	type inner struct {
+		kind      string
+		calleeVer uint64
+		accts     []basics.Address
+		assets    []basics.AssetIndex
+		apps      []basics.AppIndex
+		asset     basics.AssetIndex
+		acct      basics.Address
+	}
+	var inners []inner
+	for _, cv := range c35CalleeVersions {
+		for m := 0; m < 8; m++ {
+			in := inner{kind: "appl", calleeVer: cv}
+			if m&1 != 0 {
+				in.accts = []basics.Address{c35A}
+			}
+			if m&2 != 0 {
+				in.assets = []basics.AssetIndex{c35X}
+			}
+			if m&4 != 0 {
+				in.apps = []basics.AppIndex{c35P}
+			}
+			inners = append(inners, in)
+		}
+	}
+	for _, x := range []basics.AssetIndex{c35X, c35Y} {
+		for _, a := range []basics.Address{c35S, c35A, c35B, c35P.Address()} {
+			inners = append(inners, inner{kind: "axfer", asset: x, acct: a})
+			inners = append(inners, inner{kind: "afrz", asset: x, acct: a})
+		}
+	}
+	hex32 := func(a basics.Address) string { return "byte 0x" + hex.EncodeToString(a[:]) }
+	source := func(in inner) string {
+		var sb strings.Builder
+		w := func(s string) { sb.WriteString(s + "\n") }
+		w("itxn_begin")
+		switch in.kind {
+		case "appl":
+			w("int appl")
+			w("itxn_field TypeEnum")
+			w(fmt.Sprintf("int %d", c35Callee(in.calleeVer)))
+			w("itxn_field ApplicationID")
+			for _, a := range in.accts {
+				w(hex32(a))
+				w("itxn_field Accounts")
+			}
+			for _, x := range in.assets {
+				w(fmt.Sprintf("int %d", x))
+				w("itxn_field Assets")
+			}
+			for _, p := range in.apps {
+				w(fmt.Sprintf("int %d", p))
+				w("itxn_field Applications")
+			}
+		case "axfer":
+			w("int axfer")
+			w("itxn_field TypeEnum")
+			w(fmt.Sprintf("int %d", in.asset))
+			w("itxn_field XferAsset")
+			w(hex32(in.acct))
+			w("itxn_field AssetReceiver")
+		case "afrz":
+			w("int afrz")
+			w("itxn_field TypeEnum")
+			w(fmt.Sprintf("int %d", in.asset))
+			w("itxn_field FreezeAsset")
+			w(hex32(in.acct))
+			w("itxn_field FreezeAssetAccount")
+			w("int 1")
+			w("itxn_field FreezeAssetFrozen")
+		}
+		w("itxn_submit")
+		w("int 1")
+		return sb.String()
+	}
+	allCallees := []basics.AppIndex{}
+	for _, cv := range c35CalleeVersions {
+		allCallees = append(allCallees, c35Callee(cv))
+	}
+	type hctx struct {
+		name string
+		mk   func() []transactions.SignedTxn
+	}
+	ctxs := []hctx{
+		{"alone", func() []transactions.SignedTxn { return nil }},
+		{"appl-q-names-self-callees-x", func() []transactions.SignedTxn {
+			t := c35Appl(c35B, c35Q)
+			t.Txn.ForeignApps = append([]basics.AppIndex{c35Self}, allCallees...)
+			t.Txn.ForeignAssets = []basics.AssetIndex{c35X}
+			return []transactions.SignedTxn{t}
+		}},
+		{"appl-q-names-self-callees-p-x", func() []transactions.SignedTxn {
+			t := c35Appl(c35B, c35Q)
+			t.Txn.ForeignApps = append([]basics.AppIndex{c35Self, c35P}, allCallees...)
+			t.Txn.ForeignAssets = []basics.AssetIndex{c35X}
+			t.Txn.Accounts = []basics.Address{c35A}
+			return []transactions.SignedTxn{t}
+		}},
+		{"axfer-x-S-B", func() []transactions.SignedTxn { ctx, _, _ := c35Contexts[4].mk(); return ctx }},
+		{"afrz-y-A", func() []transactions.SignedTxn { ctx, _, _ := c35Contexts[5].mk(); return ctx }},
+	}
+	type hwork struct {
+		ctx   int
+		v     uint64
+		accts []basics.Address
+		asset []basics.AssetIndex
+		apps  []basics.AppIndex
+	}
+	var works []hwork
+	for ci := range ctxs {
+		for _, v := range []uint64{sharedResourcesVersion, LogicVersion} {
+			for m := 0; m < 8; m++ {
+				w := hwork{ctx: ci, v: v}
+				if m&1 != 0 {
+					w.accts = []basics.Address{c35A}
+				}
+				if m&2 != 0 {
+					w.asset = []basics.AssetIndex{c35X}
+				}
+				if m&4 != 0 {
+					w.apps = []basics.AppIndex{c35P}
+				}
+				works = append(works, w)
+			}
+		}
+	}
+	var nEval, nSucc, nSubmitRefused, nFieldStage, nOther atomic.Int64
+	c.r.ParallelFor(len(works), func(i int) {
+		w := works[i]
+		for _, in := range inners {
+			e := c35Appl(c35S, c35Self)
+			e.Txn.Accounts = w.accts
+			e.Txn.ForeignAssets = w.asset
+			e.Txn.ForeignApps = append([]basics.AppIndex{}, w.apps...)
+			if in.kind == "appl" {
+				e.Txn.ForeignApps = append(e.Txn.ForeignApps, c35Callee(in.calleeVer))
+			}
+			g := &c35Group{name: ctxs[w.ctx].name, txns: append(ctxs[w.ctx].mk(), e)}
+			ref := c35NewRef(w.v, g)
+			prog := c.program(w.v, source(in))
+			if prog == nil {
+				c.r.Report("C35:harness-asm", "layer H program does not assemble: "+source(in), nil)
+				return
+			}
+			ledger := c35Ledger()
+			for _, cv := range c35CalleeVersions {
+				params := basics.AppParams{ApprovalProgram: c.intOne[cv], ClearStateProgram: c.intOne[cv]}
+				ledger.NewApp(c35A, c35Callee(cv), params)
+				ledger.NewAccount(c35Callee(cv).Address(), 50_000_000)
+				for _, x := range []basics.AssetIndex{c35X, c35Y} {
+					ledger.NewHolding(c35Callee(cv).Address(), x, 5, false)
+				}
+			}
+			ep := NewAppEvalParams(transactions.WrapSignedTxnsWithAD(g.txns), c.proto, &transactions.SpecialAddresses{})
+			ep.Ledger = ledger
+			ep.SigLedger = ledger
+			pass, _, err := EvalContract(prog, len(g.txns)-1, c35Self, ep)
+			nEval.Add(1)
+			// reference: the pairs the inner transaction would make accessible
+			type pair struct {
+				a     basics.Address
+				x     basics.AssetIndex
+				p     basics.AppIndex
+				viaFA bool
+			}
+			var pairs []pair
+			self := c35Self.Address()
+			demand := true
+			switch in.kind {
+			case "appl":
+				if in.calleeVer >= sharedResourcesVersion {
+					demand = false // the callee checks availability itself
+				}
+				k := c35Callee(in.calleeVer)
+				type acc struct {
+					a  basics.Address
+					fa bool
+				}
+				accs := []acc{{self, false}, {k.Address(), false}}
+				for _, a := range in.accts {
+					accs = append(accs, acc{a, false})
+				}
+				for _, p := range in.apps {
+					accs = append(accs, acc{p.Address(), true})
+				}
+				for _, ac := range accs {
+					for _, x := range in.assets {
+						pairs = append(pairs, pair{a: ac.a, x: x, viaFA: ac.fa})
+					}
+					for _, p := range append([]basics.AppIndex{k}, in.apps...) {
+						pairs = append(pairs, pair{a: ac.a, p: p, viaFA: ac.fa})
+					}
+				}
+			case "axfer":
+				pairs = []pair{{a: self, x: in.asset}, {a: in.acct, x: in.asset}}
+			case "afrz":
+				pairs = []pair{{a: in.acct, x: in.asset}}
+			}
+			allMust, reqMay := true, true
+			var offending string
+			for _, pr := range pairs {
+				var mu, ma bool
+				if pr.x != 0 {
+					mu, ma = ref.mustHolding(pr.a, pr.x), ref.mayHolding(pr.a, pr.x)
+				} else {
+					mu, ma = ref.mustLocal(pr.a, pr.p), ref.mayLocal(pr.a, pr.p)
+				}
+				allMust = allMust && mu
+				required := !pr.viaFA || in.calleeVer >= appAddressAvailableVersion
+				if required && !ma {
+					reqMay = false
+					offending = fmt.Sprintf("(%s, asset %d / app %d)", c35AcctName(pr.a), pr.x, pr.p)
+				}
+			}
+			what := fmt.Sprintf("v%d caller, group %s, E=%s: inner %s (callee v%d, Accounts %d, Assets %v, Applications %v, asset %d, account %s)",
+				w.v, g.name, c35Describe(ref.e), in.kind, in.calleeVer, len(in.accts), in.assets, in.apps, in.asset, c35AcctName(in.acct))
+			replay := map[string]any{"layer": "H", "group": g.name, "version": w.v, "E": c35Describe(ref.e), "inner": fmt.Sprintf("%+v", in), "source": source(in)}
+			if _, isPanic := err.(panicError); isPanic {
+				c.r.Report("C35:panic", what+fmt.Sprintf(": panicked: %v", err), replay)
+				continue
+			}
+			outcome := "other-error"
+			switch {
+			case err == nil && pass:
+				outcome = "success"
+				nSucc.Add(1)
+				if demand && !reqMay {
+					key := "C35:inner-txn-exposes-unshared-cross-product:" + in.kind
+					c.note(key, what+" offending "+offending)
+					c.r.Report(key, what+" was SUBMITTED although it makes "+offending+" accessible, which no member of the group shared", replay)
+				}
+			case err != nil && strings.Contains(err.Error(), "would be accessible"):
+				outcome = "submit-refused"
+				nSubmitRefused.Add(1)
+				if allMust && len(pairs) > 0 {
+					key := "C35:inner-txn-refused-inside-MUST:" + in.kind
+					c.note(key, what+" err="+err.Error())
+					c.r.Report(key, what+fmt.Sprintf(" was refused although every cross product is plainly available: %v", err), replay)
+				}
+			case err != nil && c35IsUnavailable(err.Error()):
+				outcome = "field-stage-unavailable"
+				nFieldStage.Add(1)
+			default:
+				nOther.Add(1)
+				if err != nil {
+					c.mu.Lock()
+					c.others["H "+in.kind+": "+regexp.MustCompile(`[0-9A-Z]{52,58}|\d+`).ReplaceAllString(strings.SplitN(err.Error(), ". Details", 2)[0], "#")]++
+					c.mu.Unlock()
+				}
+			}
+			c.r.Class(fmt.Sprintf("H|%s|callee=%d|demand=%v|reqMay=%v|allMust=%v|%s", in.kind, in.calleeVer, demand, reqMay, allMust, outcome))
+		}
+	})
+	c.r.EvalN(int(nEval.Load()))
+	c.r.Set("H_inner_submissions", nEval.Load())
+	c.r.Set("H_success", nSucc.Load())
+	c.r.Set("H_refused_at_submit", nSubmitRefused.Load())
+	c.r.Set("H_failed_at_itxn_field", nFieldStage.Load())
+	c.r.Set("H_other_error", nOther.Load())
+}
+
 func TestVerif_C35(t *testing.T) {
 	r := ve.NewRun("C35", "exploration")
 	c := &c35Runner{r: r, keys: map[string]int{}, others: map[string]int{}}
@@ -1270,6 +1769,9 @@ func TestVerif_C35(t *testing.T) {
 	})
 	for v := uint64(2); v <= LogicVersion; v++ {
 		c.intOne[v] = c.program(v, "int 1")
+		if v >= LogicSigOffCurveVersion {
+			c.intOne[v] = c.program(v, "#pragma autosalt false\nint 1") // keep callee programs one instruction long
+		}
 	}
 	r.Assume("MUST/MAY are written from: ApplicationCallTxnFields field comments (application.go), the version constants' comments in opcodes.go, the resources.go comments on what each transaction type shares and on cross products, and the `_available_` wording of TEAL_opcodes; this tree's README no longer has a 'Resource availability' section")
 	r.Assume("unavailability is recognised by error text; every account is opted in to every app and holds every asset so that other run-time errors are rare")
@@ -1350,6 +1852,8 @@ func TestVerif_C35(t *testing.T) {
 		}
 	})
 	r.EvalN(int(c.evals.Load()))
+	c.layerG()
+	c.layerH()
 	r.Set("accesses_evaluated", c.evals.Load())
 	r.Set("accesses_in_MUST", c.nMust.Load())
 	r.Set("accesses_between_MUST_and_MAY", c.nGray.Load())
